@@ -18,8 +18,8 @@ from groups import proc_models as models
 PROPS = ["C14", "C15", "C16", "C17", "C18", "C19", "C06"]
 
 TIERS = {
-    "quick": dict(rnd_h=60, rnd_c=24, rnd_g=6, sim=30, jobs=10, chunk=40, long_ms=20000, thorough_regress=False),
-    "thorough": dict(rnd_h=900, rnd_c=300, rnd_g=40, sim=300, jobs=12, chunk=120, long_ms=30000, thorough_regress=True),
+    "quick": dict(rnd_h=140, rnd_c=50, rnd_g=8, sim=60, jobs=10, chunk=40, long_ms=20000, everywhere=0),
+    "thorough": dict(rnd_h=2500, rnd_c=800, rnd_g=60, sim=400, jobs=12, chunk=150, long_ms=30000, everywhere=60),
 }
 
 
@@ -266,6 +266,18 @@ def random_generator_scenario(rng, s, long_ms):
     return mk(s, acts, mode="A", cfg="random-g", long_ms=long_ms, gen_cycles=rng.choice([1, 1, 2]), seed=rng.randrange(1 << 30))
 
 
+def restart_everywhere(acts, rng):
+    """C17: the same client history with a restart (kill or exit, at a quiet point or in mid-flight)
+    inserted at every position"""
+    base = [a for a in acts if a["a"] not in ("restart", "settle") and not a.get("wait")]
+    tail = [a for a in acts if a["a"] == "settle" or a.get("wait")]
+    out = []
+    for p in range(len(base) + 1):
+        r = RS(rng.choice(["kill", "kill", "exit"]), quiet=rng.random() < 0.6)
+        out.append(copy.deepcopy(base[:p]) + [r] + copy.deepcopy(base[p:]) + copy.deepcopy(tail))
+    return out
+
+
 # ------------------------------------------------------------------------------ validation
 def validate(trace_file):
     out, gen, dist, rc = tlc("TraceProc.tla", "TraceProc.cfg", workers=1, env={"TRACE": trace_file}, timeout=1800, xmx="3g")
@@ -361,7 +373,7 @@ def run(tier, seed):
         if tier == "thorough":
             res["spec_mutants"] = models.check_spec_mutants(d)
         rng = random.Random(seed * 7919 + 13)
-        scs = regress_scenarios(cfg["thorough_regress"])
+        scs = regress_scenarios(tier == "thorough")
         nreg = len(scs)
         tl = models.generate(cfg["sim"], seed, d)
         for i, x in enumerate(tl):
@@ -369,6 +381,11 @@ def run(tier, seed):
                     gen_cycles=x.get("gen_cycles", 1))
             scs.append(x2)
         n_tlc = len(tl)
+        for i, x in enumerate(tl[:cfg["everywhere"]]):
+            for p, acts in enumerate(restart_everywhere(x["actions"], rng)):
+                scs.append(mk(600000 + i * 100 + p, acts, mode=x.get("mode", "A"), cfg=x.get("cfg", "tlc") + "-restart@%d" % p,
+                              extra_kinds=x.get("extra_kinds"), gen_cycles=1))
+        n_everywhere = len(scs) - nreg - n_tlc
         s = 0
         for _ in range(cfg["rnd_h"]):
             s += 1
@@ -384,11 +401,25 @@ def run(tier, seed):
         # slow scenarios first (generators wait for 1 s respawns)
         scs.sort(key=lambda x: (0 if any(a["a"] == "spawn" for a in x["actions"]) else 1))
         files, outs, stats, t_replay, t_validate = run_scenarios(scs, d, cfg["jobs"], cfg["chunk"])
+        # a run whose first long timeout was followed by the owed frames after all has shortened waits
+        # that cannot be trusted: run it again with uniform long waits and judge that run instead
+        late = set()
+        for f in files:
+            for l in open(f):
+                if '"late":true' in l:
+                    late.add(json.loads(l)["s"])
+        redo = sorted({v["b"] for o in outs for v in o[0] if v["w"].startswith("missing") and v["b"] in late})
+        res["rerun_uniform_waits"] = redo
+        if redo:
+            by_s = {x["s"]: x for x in scs}
+            outs = [([v for v in o[0] if v["b"] not in redo], [k for k in o[1] if k["b"] not in redo], o[2], o[3], o[4]) for o in outs]
+            files2, outs2, _, _, _ = run_scenarios([dict(by_s[x], no_shorten=True) for x in redo], d, cfg["jobs"], cfg["chunk"], tag="redo")
+            files, outs = files + files2, outs + outs2
         replay_dir = os.path.join(os.path.dirname(SPEC), "replays")
         states, toolerrs, nq, nfr = collect(res, scs, files, outs, replay_dir)
         if toolerrs > max(3, len(scs) // 50):
             raise ToolError(f"{toolerrs} scenario runs died in the harness")
-        res.update({"behaviours": nq, "events": stats["events"], "frames": nfr, "from_tlc": n_tlc, "random": s, "regress": nreg,
+        res.update({"behaviours": nq, "events": stats["events"], "frames": nfr, "from_tlc": n_tlc, "restart_everywhere": n_everywhere, "random": s, "regress": nreg,
                     "trace_states": states, "harness_died": toolerrs,
                     "samples": [{k: v for k, v in scs[0].items() if k != "kinds"}, {k: v for k, v in scs[-1].items() if k != "kinds"}],
                     "t_replay": t_replay, "t_validate": t_validate})
